@@ -2,6 +2,7 @@ package props
 
 import (
 	"bufio"
+	"bytes"
 	"encoding/json"
 	"fmt"
 	"image"
@@ -124,6 +125,13 @@ func c15Run(c c15Cell) (bad bool, msg string) {
 	}
 	if ok, p := imagesEqualAt(src, snap, b); !ok {
 		return true, fmt.Sprintf("cell %+v: input pixel %v was modified", c, p)
+	}
+	// byte-wise too: a non-premultiplied pixel with alpha 0 can be rewritten without changing its colour value
+	pa, pb := planesOf(src), planesOf(snap)
+	for k := range pa {
+		if k < len(pb) && !bytes.Equal(pa[k], pb[k]) {
+			return true, fmt.Sprintf("cell %+v: the input's pixel buffer (plane %d) was modified", c, k)
+		}
 	}
 	if c15Identity(c.Helper, c.Src) {
 		same := false
